@@ -3498,6 +3498,9 @@ def _keys_to_items(source: str) -> Iterable[Tuple[ast.AST, ast.AST]]:
         if not value_target_subscripts:
             continue
 
+        if core.has_side_effect(value):
+            continue  # every d[k] replaced is one evaluation of d less
+
         if any(isinstance(s.ctx, (ast.Store, ast.Del)) for s in value_target_subscripts):
             continue  # d[k] = ... must stay a write to the dict
 
@@ -3587,6 +3590,9 @@ def _for_keys_to_items(source: str) -> Iterable[Tuple[ast.AST, ast.AST]]:
 
         if not value_target_subscripts:
             continue
+
+        if core.has_side_effect(value):
+            continue  # every d[k] replaced is one evaluation of d less
 
         if any(isinstance(s.ctx, (ast.Store, ast.Del)) for s in value_target_subscripts):
             continue  # d[k] = ... must stay a write to the dict
